@@ -1727,7 +1727,39 @@ FUNC_OF_CHECK = {
     "odp.tables": "odp_extractor.py::read_odp.iterate_tables",
     "epub.source": "epub_extractor.py::read_epub",
     "rtf.unicode": "rtf_extractor.py::_decode_unicode_run",
+    "rtf.skip": "rtf_extractor.py::_RtfParser._is_skip_destination",
 }
+
+# (round 7) functions whose contract is VERIFIED while their body has the shape the contract is written for and that fall back to
+# "assumed at call sites + bounded token check" otherwise: (function, in-subset test, bounded check).  In the fallback the ids of
+# the verified contract are reported with the verdict of the bounded check -- status bounded-ok, never counted as discharged.
+VERIFIED_OR_BOUNDED = [
+    ("docx_extractor.py::_extract_table_text",
+     lambda: table_nest_shape(DOCX, find_fn(DOCX, "_extract_table_text", mentions=["W_TR", "W_TC"], nparams=2)), "docx.table"),
+]
+
+
+def _fallback_obligations(res):
+    import json
+    import os
+    out = []
+    for fn, in_subset, check in VERIFIED_OR_BOUNDED:
+        try:
+            if in_subset():
+                continue
+            root = os.path.dirname(os.path.dirname(os.path.abspath(__file__)))
+            lock = json.load(open(os.path.join(root, "obligations.lock.json"))).get("C02", {})
+            kf = json.load(open(os.path.join(root, "known_findings.json"))).get("findings", [])
+            recorded = {o.split("#tokens[", 1)[1][:-1] for f in kf if f.get("property") == "C02"
+                        for o in f.get("covers", [f.get("obligation", "")]) if o.startswith(f"C02/{fn}/bounded#tokens[")}
+            cases = [r for case, r in res.get(check, {}).items() if not case.startswith("<") and case not in recorded]
+            bad = next((r["witness"] for r in cases if r["failures"]), None)
+            for oid in lock:
+                if oid.startswith(f"C02/{fn}/") and "/bounded#" not in oid and "/inv-" not in oid:
+                    out.append(dict(_ob(oid, bad is None and bool(cases), sum(r["checked"] for r in cases), bad), bounded=True))
+        except Exception:  # noqa
+            continue
+    return out
 
 
 def run_native(repo, *args, timeout=900):
@@ -1790,6 +1822,7 @@ def bounded_native(repo, tier):
             if r.get("unsupported"):
                 continue
             obls.append(_ob(f"C02/api::{fmt}.get_full_text/document#tokens[{feat}]", bool(r.get("ok")), 1, None if r.get("ok") else r, kind="document"))
+    obls.extend(_fallback_obligations(res))
     m = res.get("model", {})
     obls.append(_ob("C02/etree_model::Element/bounded#agrees-with-xml.etree", not m.get("mismatches"), m.get("trees", 0),
                     {"target": "xml.etree.ElementTree", "inputs": str(m.get("mismatches"))[:500], "kinds": ["model"]} if m.get("mismatches") else None))
